@@ -112,6 +112,34 @@ CLAIMED = {
         note="Trusted: TLC; table memory = heap blocks reachable from MODULE through the private headers (usable size). A temporary "
              "modification restored before return is invisible here (only C12's concurrent runs would see it).",
         technique="TLA+ frame invariants checked with TLC + replay with whole-memory snapshots + TLC trace validation of change reports"),
+    "C12": dict(
+        category="model_checking",
+        text="TLC explores every interleaving of the unsynchronised Read / Init+Publish / Use steps of the cached *_simple functions "
+             "(SimpleCache.tla: process-wide and thread-local slots, catalogue of the 20 cached functions with their keys) for 2-3 "
+             "threads, warm and cold start: after the documented warm-up no write to a process-wide slot and no race, the table "
+             "used always matches the call, module-level calls reach no slot (call graph), and a cold-start race is reachable "
+             "(witness). Recorded executions of the real library - 16 threads over 14 module/table-level and 8 *_simple operation "
+             "groups on shared MODULE/PRECOMP objects, warm and cold (first use included), totally ordered by the sequence number "
+             "taken inside the hook - are validated by TLC (SimpleCacheTrace.tla): no cache event inside a module/table call, no "
+             "miss after warm-up, every call returns the hash of its sequential execution. A ThreadSanitizer build observes warm "
+             "runs; the writable static storage of the built library is compared with the slot inventory.",
+        design_ref="DESIGN.md section 4 C12",
+        note="Trusted: TLC, the hooks' global sequence number, TSan as observer. A race that neither changes an output in the runs, "
+             "nor is hooked, nor is seen by TSan is invisible. Cold-start races inside *_simple are allowed (documented protocol).",
+        technique="TLA+ model of the caches checked over all interleavings with TLC + TLC trace validation of recorded multi-threaded executions"),
+    "C15": dict(
+        category="model_checking",
+        text="TLC checks on all sequential histories (SimpleCache.tla) that the table a cached call uses was built with the call's "
+             "own values of every parameter its result depends on, and that the catalogue of cache keys covers those parameters. "
+             "TLC-simulated histories of 60 calls over the 17 in-domain *_simple functions (7 dimensions, divisors, bounds) are "
+             "replayed: every logical call must return the same bytes at every occurrence and on a freshly built table, under "
+             "other buffer offsets (0..56) and prefills; the hook events (which table, which parameters) are validated by TLC. "
+             "API programs are replayed twice with different prefills/offsets/interleaved unrelated calls and the raw bytes of "
+             "every defined object must coincide after every step.",
+        design_ref="DESIGN.md section 4 C15",
+        note="Trusted: TLC, sha256 of outputs. Histories longer than the simulated ones are not explored. reim_to_tnx32_simple is "
+             "keyed by dimension only but its kernels are stubs that abort: no in-domain call, recorded in the catalogue.",
+        technique="TLA+ cache-key model checked exhaustively with TLC + replay of TLC-simulated call histories + TLC trace validation of hook events"),
 }
 
 NOT_YET = "check not built yet in this session (planned, see DESIGN.md section 8)"
